@@ -200,7 +200,7 @@ void scen_c20(mt_case * c) {
   mt_hash(c->prog.p, c->prog.pos);
   myth_verif_clock_fn = vclock;
   mt_lib_start(c, &e, 0);
-  Z0(myth_mutex_init(&Z.m, 0)); for (int i = 0; i < 8; i++) Z0(myth_mutex_init(&Z.free_m[i], 0));
+  MT_DIRTY(Z.m); MT_DIRTY(Z.free_m); Z0(myth_mutex_init(&Z.m, 0)); for (int i = 0; i < 8; i++) Z0(myth_mutex_init(&Z.free_m[i], 0));
   myth_thread_t th[8], sib = 0;
   if (Z.sibling) Z0(myth_create_ex(&sib, 0, sibling_body, 0));
   for (int t = 0; t < Z.T; t++) Z0(myth_create_ex(&th[t], 0, script, (void *)(intptr_t)t));
